@@ -4,6 +4,7 @@ import os, sys, json, re, ast
 V = os.path.dirname(os.path.dirname(os.path.abspath(__file__)))
 props = [json.loads(l) for l in open(os.path.join(V, 'properties.jsonl'))]
 checks, na = [], []
+ready = set(open(os.path.join(V, 'tools', 'ready.txt')).read().split())
 for p in props:
     pid = p['id']
     f = os.path.join(V, 'harness', 'c%s.py' % pid[1:])
@@ -14,6 +15,8 @@ for p in props:
         for n in tree.body:
             if isinstance(n, ast.Assign) and getattr(n.targets[0], 'id', '') == 'META':
                 meta = ast.literal_eval(n.value)
+    if pid not in ready:
+        meta = None
     if meta is None:
         na.append({'property_id': pid, 'reason': 'no check registered yet for this property in the current round (design in DESIGN.md §4; machinery under construction) — nothing is claimed for it'})
         continue
